@@ -3,6 +3,7 @@ import Pxv.Model.TySpec
 import Pxv.Lemmas.Ty
 import Pxv.Lemmas.TyEquiv
 import Pxv.Lemmas.TyCanon
+import Pxv.Lemmas.TyCanon2
 import Pxv.Model.TyParse
 import Pxv.Lemmas.TyParse4
 /-!
@@ -136,6 +137,30 @@ theorem canon_eq_equiv (a b : Ty) (h : canonicalize a = canonicalize b) :
 theorem equiv_canon (a : Ty) : (isEquivalentTo a (canonicalize a)).isSome = true :=
   equiv_symm _ _ (canon_eq_equiv _ _ (canon_idem a))
 
+/-- **C17 (3c)** canonical forms are complete: two types have the same canonical form *exactly* when
+    they are equivalent and agree on which lifetimes are `'static` (`ltSkeleton` keeps that bit and
+    forgets the other lifetimes and all generic names). This is what lookups keyed by `CanonicalType`
+    (constructors, error handlers, codegen bindings) identify. -/
+theorem canon_eq_iff (a b : Ty) :
+    canonicalize a = canonicalize b ↔
+      ((isEquivalentTo a b).isSome = true ∧ ltSkeleton a = ltSkeleton b) := by
+  constructor
+  · intro h
+    refine ⟨canon_eq_equiv a b h, ?_⟩
+    have h1 := canonGo_ltSkeleton a ⟨0, []⟩
+    have h2 := canonGo_ltSkeleton b ⟨0, []⟩
+    unfold canonicalize at h
+    rw [← h1, ← h2, h]
+  · rintro ⟨he, hk⟩
+    unfold isEquivalentTo at he
+    cases e : equivGo a b ([], []) with
+    | none => simp [e] at he
+    | some s' =>
+      obtain ⟨c, k, e1, e2⟩ := canonGo_complete a b ([], []) s' 0 e hk
+      unfold canonicalize
+      simp only [] at e1 e2
+      rw [e1, e2]
+
 -- Non-vacuity: `Pair<&'x T, &'y U, T>` and `Pair<&V, &'static .., ..>`.
 example : canonicalize
     (.path false "p" none ["k", "Tri"] (.ty (.ref false (.named "x") (.generic "T"))
@@ -204,3 +229,4 @@ end Pxv.Ty
 #print axioms Pxv.Ty.equiv_trans
 #print axioms Pxv.Ty.canon_idem
 #print axioms Pxv.Ty.canon_eq_equiv
+#print axioms Pxv.Ty.canon_eq_iff
